@@ -5,6 +5,9 @@ mod api;
 mod termconf;
 mod show;
 mod est;
+mod field;
+mod bargeom;
+mod place;
 
 use std::io::{BufRead, BufWriter, Write};
 
@@ -57,6 +60,9 @@ fn main() {
                 est::run_history(&hist, &mut out);
             }
         }
+        "field" => { clock::enable(); field::for_each_history(input, &mut out, field::run_history); }
+        "bargeom" => { clock::enable(); field::for_each_history(input, &mut out, bargeom::run_history); }
+        "place" => { clock::enable(); field::for_each_history(input, &mut out, place::run_history); }
         "show" => {
             clock::enable();
             for line in input.lines() {
